@@ -12,6 +12,11 @@ VARIABLE l
 tvars == <<vars, l>>
 
 St(fs) == [f \in 1..Len(fs) |-> <<Len(fs[f].recs), fs[f].w, fs[f].s>>]
+\* observed per-file counters: appended and fsynced records (hook) are exact; the records found on disk are at
+\* least what the durability-mode step flushed (a BufWriter may write through earlier)
+StOk(fs, st) == /\ Len(st) = Len(fs)
+                /\ \A f \in 1..Len(fs) : st[f][1] = Len(fs[f].recs) /\ st[f][3] = fs[f].s
+                                          /\ st[f][2] >= fs[f].w /\ st[f][2] <= Len(fs[f].recs)
 LastId(h) == IF h = <<>> THEN 0 ELSE h[Len(h)]
 InSeq(x, q) == \E j \in DOMAIN q : q[j] = x
 
@@ -33,7 +38,7 @@ IssueId(i, m) ==
 CrashImg(img) ==
   /\ open /\ open' = FALSE /\ crashes' = crashes + 1
   /\ Len(img) = Len(files)
-  /\ \A f \in 1..Len(files) : img[f][1] >= files[f].s /\ img[f][1] <= files[f].w /\ (img[f][2] => img[f][1] < files[f].w)
+  /\ \A f \in 1..Len(files) : img[f][1] >= files[f].s /\ img[f][1] <= Len(files[f].recs) /\ (img[f][2] => img[f][1] < Len(files[f].recs))
   /\ files' = ImageOf(files, img) /\ rsince' = 0
   /\ UNCHANGED <<meta, mem, issued, durable, ckpts, closes, flips, hist, okRec>>
 
@@ -41,7 +46,7 @@ CrashImg(img) ==
 FlipImg(fs, fl) == IF fl[1] = 0 THEN fs ELSE [fs EXCEPT ![fl[1]].recs = [@ EXCEPT ![fl[2]] = Junk]]
 ProbeOk(e) ==
   /\ Len(e.img) = Len(files)
-  /\ \A f \in 1..Len(files) : e.img[f][1] >= files[f].s /\ e.img[f][1] <= files[f].w
+  /\ \A f \in 1..Len(files) : e.img[f][1] >= files[f].s /\ e.img[f][1] <= Len(files[f].recs)
   /\ LET fs == FlipImg(ImageOf(files, e.img), e.flip)
          R == RecoveredOf(fs, meta)
          k == PrefixLen(R, hist)
@@ -55,12 +60,12 @@ TStep ==
   /\ l' = l + 1
   /\ LET e == Ev[l] IN
      CASE e.a = "reset" -> Reset /\ e.mode = Mode
-       [] e.a = "op"    -> IssueId(e.i, e.nrec) /\ (e.chg => e.nrec > 0) /\ e.fresh /\ St(files') = e.st
-       [] e.a = "sync"  -> Sync /\ e.ok /\ St(files') = e.st
-       [] e.a = "ckpt"  -> Checkpoint /\ e.ok /\ St(files') = e.st
-       [] e.a = "close" -> Close /\ e.ok /\ St(files') = e.st
+       [] e.a = "op"    -> IssueId(e.i, e.nrec) /\ (e.chg => e.nrec > 0) /\ e.fresh /\ StOk(files', e.st)
+       [] e.a = "sync"  -> Sync /\ e.ok /\ StOk(files', e.st)
+       [] e.a = "ckpt"  -> Checkpoint /\ e.ok /\ StOk(files', e.st)
+       [] e.a = "close" -> Close /\ e.ok /\ StOk(files', e.st)
        [] e.a = "crash" -> CrashImg(e.img)
-       [] e.a = "open"  -> Open /\ e.ok /\ okRec' /\ InSeq(LastId(hist'), e.match) /\ St(files') = e.st
+       [] e.a = "open"  -> Open /\ e.ok /\ okRec' /\ InSeq(LastId(hist'), e.match) /\ StOk(files', e.st)
        [] e.a = "probe" -> ProbeOk(e) /\ UNCHANGED vars
 
 TInit == Init /\ l = 1
